@@ -320,16 +320,40 @@ pub uninterp spec fn yaml_output_refs(t: YamlTarget, current: Option<String>) ->
 
 /// `transform_target` (ir.rs; iterator adapters and regexes — assumed): builds the domain target of the
 /// given id in the given directory; its dependencies are the parsed `dependencies:`; it also returns the
-/// producers named by `X.output` inputs; aggregates have no inputs
-#[verifier::external_body]
-pub fn transform_target(target_id: &TargetId, yaml_target: YamlTarget, project_dir: PathBuf) -> (r: Result<(Target, Vec<TargetId>)>)
+/// producers named by `X.output` inputs; aggregates have no inputs.  Real signatures, bodies not verified.
+//@fn src/config/ir.rs transform_target assumed ret=r
+//@contract
     ensures r matches Ok((t, dfi)) ==> {
         &&& t.meta().id == *target_id && t.meta().project_dir == project_dir
         &&& t.meta().dependencies@ == yaml_deps(yaml_target, target_id.project_name)
         &&& dfi@ == yaml_output_refs(yaml_target, target_id.project_name)
         &&& (t is Aggregate ==> dfi@.len() == 0)
     },
-{ unimplemented!() }
+//@end
+#[verifier::external_body]
+pub struct InputResources { _p: () }
+#[verifier::external_body]
+pub struct OutputResources { _p: () }
+#[verifier::external_body]
+pub struct Path { _p: () }
+//@fn src/config/ir.rs transform_input assumed ret=r
+//@lsubst yaml::InputResources => InputResources
+//@contract
+    ensures true,
+//@end
+//@fn src/config/ir.rs transform_output assumed ret=r
+//@lsubst yaml::OutputResources => OutputResources
+//@contract
+    ensures true,
+//@end
+//@fn src/config/ir.rs transform_extensions assumed ret=r
+//@contract
+    ensures true,
+//@end
+//@fn src/config/ir.rs get_dependencies assumed ret=r
+//@contract
+    ensures true,
+//@end
 
 pub assume_specification<T> [<[T]>::contains] (s: &[T], x: &T) -> (r: bool)
     where T: std::cmp::PartialEq
